@@ -306,37 +306,3 @@ Qed.
 Lemma delattr_refused_l : forall l h c fs name,
   get h l = Some (NObj c fs) -> assoc name fs = None -> py_delattr (VR l) name h = (h, RExc "AttributeError").
 Proof. unfold py_delattr, del_field. intros l h c fs name E A. rewrite E, A. reflexivity. Qed.
-
-(* the objects the library builds have only private instance attributes *)
-Lemma construct_body_obj : forall W rec c sch m h h' v, construct_body W rec c sch m h = (h', RVal v) ->
-  exists o fs, v = VR o /\ get h' o = Some (NObj c fs) /\
-               forall name, setattr_allowed name = false -> assoc name fs = None.
-Proof.
-  unfold construct_body, bindv. intros W rec c sch m h h' v H.
-  match type of H with (let (_, _) := alloc ?hh ?nn in _) = _ => destruct (alloc hh nn) as [h1 s] eqn:Ea end.
-  match type of H with (let (_, _) := ?x in _) = _ => destruct x as [h2 r2] eqn:Ei end.
-  destruct r2; try discriminate.
-  match type of H with (let (_, _) := alloc ?hh ?nn in _) = _ => destruct (alloc hh nn) as [h4 o] eqn:Ea2 end.
-  inversion H; subst. eexists; eexists. split; [reflexivity|]. split; [eapply alloc_get_new; eauto|].
-  intros name Hn. cbn [assoc].
-  rewrite (not_underscore_neq name (u "_inner") Hn eq_refl).
-  destruct (assoc (u "_valid_refs") m); cbn [assoc]; auto.
-  rewrite (not_underscore_neq name (u "_valid_refs") Hn eq_refl). reflexivity.
-Qed.
-
-Lemma construct_obj : forall W rec c kw h h' v, construct W rec c kw h = (h', RVal v) ->
-  exists o fs, v = VR o /\ get h' o = Some (NObj c fs) /\
-               forall name, setattr_allowed name = false -> assoc name fs = None.
-Proof.
-  unfold construct, bindv. intros W rec c kw h h' v H.
-  destruct (lookup c (classes W)) as [sch|]; [|discriminate].
-  destruct (mapping_entries h kw) as [m|]; [|discriminate].
-  destruct (lookup c (defn_classes W)) as [table|]; [|eapply construct_body_obj; eauto].
-  destruct (assoc (u "definition_type") m) as [dt|]; [|eapply construct_body_obj; eauto].
-  destruct (assoc (u "definition") m) as [dv|]; [|eapply construct_body_obj; eauto].
-  match type of H with (match ?x with _ => _ end) = _ => destruct x as [mc|] end; [|discriminate].
-  match type of H with (if ?x then _ else _) = _ => destruct x end; [eapply construct_body_obj; eauto|].
-  destruct (get_dict dv h) as [h0 r0]. destruct r0; try discriminate.
-  destruct (rec (QConstruct mc v0) h0) as [h1 r1]. destruct r1; try discriminate.
-  eapply construct_body_obj; eauto.
-Qed.
